@@ -95,6 +95,18 @@ var c08Eps = []string{"add-chain", "add-pre-chain", "get-sth", "get-sth-consiste
 type c08Reply struct {
 	desc    string
 	install func(*verifkit.FuncLog)
+	// fault reports whether this reply is one of the faults the property lists, for a request with integer parameters a, b
+	fault func(a, b int64) bool
+}
+
+func c08RootBad(r c08Root) bool { return !r.present || !r.decodes }
+func c08HashesBad(lens []int) bool {
+	for _, l := range lens {
+		if l != 32 {
+			return true
+		}
+	}
+	return false
 }
 
 func c08Err(code int) error {
@@ -137,6 +149,7 @@ func TestVerifC08(t *testing.T) {
 		{true, true, 0, 32}, {true, true, 4, 32}, {true, true, 5, 32}, {true, true, 6, 32}, {true, true, 7, 32}, {true, true, 8, 32}, {true, true, 1 << 63, 32}}
 	hashSets := [][]int{{}, {32}, {32, 32, 32}, {32, 31}, {0}, {33, 32}, {32, 32, 64}}
 
+	var lastCount int64 // Count of the last GetLeavesByRange request (what "surplus" is measured against)
 	// replies per endpoint
 	replies := map[string][]c08Reply{}
 	for code := -1; code <= 17; code++ {
@@ -150,7 +163,7 @@ func TestVerifC08(t *testing.T) {
 		}
 		e := c08Err(c)
 		for _, ep := range c08Eps {
-			replies[ep] = append(replies[ep], c08Reply{d, func(f *verifkit.FuncLog) {
+			replies[ep] = append(replies[ep], c08Reply{desc: d, fault: func(int64, int64) bool { return true }, install: func(f *verifkit.FuncLog) {
 				f.QueueLeafF = func(*trillian.QueueLeafRequest) (*trillian.QueueLeafResponse, error) { return nil, e }
 				f.GetLatestSignedLogRootF = func(*trillian.GetLatestSignedLogRootRequest) (*trillian.GetLatestSignedLogRootResponse, error) {
 					return nil, e
@@ -177,7 +190,7 @@ func TestVerifC08(t *testing.T) {
 			continue
 		}
 		d := fmt.Sprintf("queue %s %s %s %s %s", verifkit.B(rspNil), verifkit.B(qlNil), verifkit.B(leafNil), verifkit.B(dec), verifkit.B(noTrail))
-		rep := c08Reply{d, func(f *verifkit.FuncLog) {
+		rep := c08Reply{desc: d, fault: func(int64, int64) bool { return rspNil || qlNil || leafNil || !dec || !noTrail }, install: func(f *verifkit.FuncLog) {
 			f.QueueLeafF = func(req *trillian.QueueLeafRequest) (*trillian.QueueLeafResponse, error) {
 				if rspNil {
 					return nil, nil
@@ -204,7 +217,7 @@ func TestVerifC08(t *testing.T) {
 	}
 	for _, rt := range roots {
 		rt := rt
-		replies["get-sth"] = append(replies["get-sth"], c08Reply{"sth " + rt.String(), func(f *verifkit.FuncLog) {
+		replies["get-sth"] = append(replies["get-sth"], c08Reply{desc: "sth " + rt.String(), fault: func(int64, int64) bool { return c08RootBad(rt) || rt.hashLen != 32 }, install: func(f *verifkit.FuncLog) {
 			f.GetLatestSignedLogRootF = func(*trillian.GetLatestSignedLogRootRequest) (*trillian.GetLatestSignedLogRootResponse, error) {
 				return &trillian.GetLatestSignedLogRootResponse{SignedLogRoot: rt.slr()}, nil
 			}
@@ -215,7 +228,9 @@ func TestVerifC08(t *testing.T) {
 				if !pp && len(hs) > 0 {
 					continue
 				}
-				replies["get-sth-consistency"] = append(replies["get-sth-consistency"], c08Reply{fmt.Sprintf("cons %s %s %s", rt, verifkit.B(pp), c08Lens(hs)), func(f *verifkit.FuncLog) {
+				replies["get-sth-consistency"] = append(replies["get-sth-consistency"], c08Reply{desc: fmt.Sprintf("cons %s %s %s", rt, verifkit.B(pp), c08Lens(hs)), fault: func(_, second int64) bool {
+					return c08RootBad(rt) || rt.size < uint64(second) || !pp || c08HashesBad(hs)
+				}, install: func(f *verifkit.FuncLog) {
 					f.GetConsistencyProofF = func(*trillian.GetConsistencyProofRequest) (*trillian.GetConsistencyProofResponse, error) {
 						rsp := &trillian.GetConsistencyProofResponse{SignedLogRoot: rt.slr()}
 						if pp {
@@ -232,7 +247,9 @@ func TestVerifC08(t *testing.T) {
 			for _, p := range ps {
 				d += " " + c08Lens(p)
 			}
-			replies["get-proof-by-hash"] = append(replies["get-proof-by-hash"], c08Reply{d, func(f *verifkit.FuncLog) {
+			replies["get-proof-by-hash"] = append(replies["get-proof-by-hash"], c08Reply{desc: d, fault: func(ts, _ int64) bool {
+				return c08RootBad(rt) || rt.size < uint64(ts) || len(ps) == 0 || c08HashesBad(ps[0])
+			}, install: func(f *verifkit.FuncLog) {
 				f.GetInclusionProofByHashF = func(*trillian.GetInclusionProofByHashRequest) (*trillian.GetInclusionProofByHashResponse, error) {
 					rsp := &trillian.GetInclusionProofByHashResponse{SignedLogRoot: rt.slr()}
 					for i, p := range ps {
@@ -248,8 +265,19 @@ func TestVerifC08(t *testing.T) {
 			for _, i := range idxs {
 				d += fmt.Sprintf(" %d", i)
 			}
-			replies["get-entries"] = append(replies["get-entries"], c08Reply{d, func(f *verifkit.FuncLog) {
-				f.GetLeavesByRangeF = func(*trillian.GetLeavesByRangeRequest) (*trillian.GetLeavesByRangeResponse, error) {
+			replies["get-entries"] = append(replies["get-entries"], c08Reply{desc: d, fault: func(start, end int64) bool {
+				if c08RootBad(rt) || rt.size <= uint64(start) || int64(len(idxs)) > lastCount {
+					return true
+				}
+				for i, x := range idxs {
+					if x != start+int64(i) {
+						return true
+					}
+				}
+				return false
+			}, install: func(f *verifkit.FuncLog) {
+				f.GetLeavesByRangeF = func(req *trillian.GetLeavesByRangeRequest) (*trillian.GetLeavesByRangeResponse, error) {
+					lastCount = req.Count
 					rsp := &trillian.GetLeavesByRangeResponse{SignedLogRoot: rt.slr()}
 					for _, i := range idxs {
 						rsp.Leaves = append(rsp.Leaves, &trillian.LogLeaf{LeafIndex: i, LeafValue: goodLeaf, ExtraData: []byte{0, 0, 0}})
@@ -269,7 +297,9 @@ func TestVerifC08(t *testing.T) {
 				continue
 			}
 			d := fmt.Sprintf("entry %s 1 %s %d %s %d", rt, verifkit.B(leafPresent), lvl, verifkit.B(pp), nh)
-			replies["get-entry-and-proof"] = append(replies["get-entry-and-proof"], c08Reply{d, func(f *verifkit.FuncLog) {
+			replies["get-entry-and-proof"] = append(replies["get-entry-and-proof"], c08Reply{desc: d, fault: func(_, ts int64) bool {
+				return c08RootBad(rt) || rt.size < uint64(ts) || !leafPresent || lvl == 0 || !pp || (ts > 1 && nh == 0)
+			}, install: func(f *verifkit.FuncLog) {
 				f.GetEntryAndProofF = func(*trillian.GetEntryAndProofRequest) (*trillian.GetEntryAndProofResponse, error) {
 					rsp := &trillian.GetEntryAndProofResponse{SignedLogRoot: rt.slr()}
 					if leafPresent {
@@ -283,7 +313,7 @@ func TestVerifC08(t *testing.T) {
 			}})
 		}
 	}
-	replies["get-roots"] = []c08Reply{{"err plain", func(*verifkit.FuncLog) {}}}
+	replies["get-roots"] = []c08Reply{{desc: "err plain", install: func(*verifkit.FuncLog) {}, fault: func(int64, int64) bool { return false }}}
 
 	// requests per endpoint: (p1, p2, flags)
 	type rq struct {
@@ -303,9 +333,9 @@ func TestVerifC08(t *testing.T) {
 		"get-sth-consistency": {{p1: "3", p2: "6", has1: true, has2: true, method: "GET"}, {p1: "6", p2: "6", has1: true, has2: true, method: "GET"},
 			{p1: "1", p2: "9223372036854775807", has1: true, has2: true, method: "GET"}},
 		"get-proof-by-hash":   {{p1: "6", has1: true, hash: b64, method: "GET"}, {p1: "1", has1: true, hash: b64, method: "GET"}},
-		"get-entries":         {{p1: "5", p2: "7", has1: true, has2: true, method: "GET"}, {p1: "5", p2: "5", has1: true, has2: true, method: "GET"}},
+		"get-entries":         {{p1: "5", p2: "7", has1: true, has2: true, method: "GET"}, {p1: "5", p2: "5", has1: true, has2: true, method: "GET"}, {p1: "5", p2: "6", has1: true, has2: true, method: "GET"}},
 		"get-roots":           {{method: "GET"}},
-		"get-entry-and-proof": {{p1: "5", p2: "6", has1: true, has2: true, method: "GET"}, {p1: "0", p2: "1", has1: true, has2: true, method: "GET"}},
+		"get-entry-and-proof": {{p1: "5", p2: "6", has1: true, has2: true, method: "GET"}, {p1: "0", p2: "1", has1: true, has2: true, method: "GET"}, {p1: "1", p2: "2", has1: true, has2: true, method: "GET"}},
 	}
 	pnames := map[string][2]string{"get-sth-consistency": {"first", "second"}, "get-proof-by-hash": {"tree_size", ""}, "get-entries": {"start", "end"}, "get-entry-and-proof": {"leaf_index", "tree_size"}}
 
@@ -398,6 +428,14 @@ func TestVerifC08(t *testing.T) {
 			if st/100 != 4 || fl.Calls > 0 {
 				out.Fail(key, fmt.Sprintf("bad request answered %d, backend calls=%d", st, fl.Calls))
 			}
+		}
+		if valid && fl.Calls > 0 && rep.fault(a, b) {
+			out.Count("class:fault-reply")
+			if st == 200 || rl.scts > 0 {
+				out.Fail(key, fmt.Sprintf("faulty backend reply answered %d, sct recorded=%v", st, rl.scts > 0))
+			}
+		} else if valid && fl.Calls > 0 && st != 200 && q.signOk {
+			out.Fail(key, fmt.Sprintf("clean backend reply answered %d", st))
 		}
 		if rl.scts > 0 && st != 200 {
 			out.Fail(key, fmt.Sprintf("an SCT was recorded as issued but the response is %d", st))
